@@ -92,10 +92,16 @@ T['C07'] = ("""C07 Oneof groups stay exclusive in both directions.""", [
     ('C07_to_active', 'to_field_oneof_active', 'CopyTo: the active scalar branch is rendered with its value'),
     ('C07_to_msg_inactive', 'to_field_oneof_msg_inactive', 'CopyTo: a message branch that is not active (or holds nil) is rendered as a null object'),
     ('C07_to_msg_active', 'to_field_oneof_msg_active', 'CopyTo: the active message branch is rendered as a non-null object'),
+    ('C07_to_exclusive_partial', 'copy_to_oneof_exclusive_partial', 'message level, CopyTo: of two different branches of one oneof at least one is rendered null'),
+    ('C07_to_at_most_one_partial', 'copy_to_oneof_count_partial', 'at most one branch attribute per oneof is non-null'),
+    ('C07_to_branches_partial', 'copy_to_oneof_branches_partial', 'exactly: every branch attribute has the null flag the holder dictates (nil holder: all null; set holder: the other branches null, the active one null iff zero payload / nil message)'),
+    ('C07_to_every_depth_partial', 'copy_to_excl_partial', 'and so in every nested object, list element and map value'),
+    ('C07_from_holders_partial', 'copy_from_holders_ok_partial', 'message level, CopyFrom, any object and any prior target: every holder ends up nil or set to ONE branch of its oneof — the last branch in field order whose attribute is present, of the right kind, known and non-null — with the decoded payload'),
+    ('C07_round_trip_nofloat32', 'oneof_round_trip_nofloat32', 'an active branch with a non-zero payload survives CopyTo then CopyFrom'),
 ])
 
-T['C08'] = ("""C08 Apply echo (whole-plan theorem for messages without oneofs and field-less messages; the per-attribute facts
-for the rest; the remaining shapes are decided by the oracle on every run).""", [
+T['C08'] = ("""C08 Apply echo (whole-plan theorems, with and without oneofs, for the class rt_ok; custom types and fields promoted
+from nullable embedded messages are decided by the oracle on every run).""", [
     ('C08_no_unknown', 'copy_to_clean', 'copying back into the plan leaves nothing unknown where the plan object is written'),
     ('C08_scalar_fixpoint', 'to_prim_value_idem', 'a scalar attribute written from a value is a fixpoint of writing that value again'),
     ('C08_reset_roundtrip', 'from_prim_value_null', 'a null or unknown scalar decodes to the zero value'),
@@ -107,6 +113,9 @@ for the rest; the remaining shapes are decided by the oracle on every run).""", 
     ('C08_plan_read_quiet', 'copy_from_plan_quiet', 'reading a plan never produces a diagnostic'),
     ('C08_echo_known_exact', 'echo_prim_exact', 'what the relation says of a known non-null scalar: it comes back identical'),
     ('C08_echo_unknown_known', 'echo_prim_unknown', 'and of an unknown one: it comes back known'),
+    ('C08_echo_message_oneof_partial', 'copy_echo_oneof_partial', 'whole plans WITH oneofs (scalar and message branches, at most one branch not null) and field-less messages: same conclusion as C08_echo_message_partial (class: rt_ok, field-less messages reached through message attributes only)'),
+    ('C08_echo_message_oneof_nofloat32', 'copy_echo_oneof_nofloat32', 'the same without float32 fields, free of the classical axioms'),
+    ('C08_echo_attrs_known', 'copy_echo_oneof_attrs_known', 'every attribute of the result is known'),
 ])
 
 T['C09'] = ("""C09 Refresh: in-place CopyTo makes collections and known values follow the source.""", [
@@ -142,6 +151,13 @@ T['C11'] = ("""C11 Field-addressed options hit exactly the addressed fields; exc
     ('C11_flag_iff', 'flag_iff', 'a boolean option holds for a field exactly when its message-qualified name or its path is listed'),
     ('C11_path_first', 'by_keys_path_first', 'valued options: the entry under the path wins'),
     ('C11_then_type_name', 'by_keys_type_name', 'otherwise the entry under the message-qualified name, if any'),
+    ('C11_exclusion_is_deletion_roots', 'ok_roots_excl_lit', 'exclusion is surgical: generating with the key "D.f" in exclude_fields gives, for every selected root, literally the IR generated from the file with field f deleted from message D and the key removed from the list (Go zero values recomputed from the original structs, which keep the field) — every other field, name, flag, nested message, at every depth and occurrence, syntactically equal'),
+    ('C11_exclusion_schemas_equal', 'schemas_excl', 'hence the schemas are equal for any hook'),
+    ('C11_exclusion_converters_equal', 'converters_excl', 'and both converters coincide'),
+    ('C11_exclusion_message_level', 'build_message_excl_cfg_lit', 'the same for every message of the request at every path from which the key cannot be formed'),
+    ('C11_exclusion_field_level', 'build_fields_excl_lit', 'and for the field list of one message'),
+    ('C11_path_form_elsewhere', 'build_message_off_path_cfg', 'path form "Root.a.b": away from that path nothing changes at all'),
+    ('C11_path_form_at_path', 'build_message_at_path_cfg', 'and at the parent path the message is built as from its descriptor without the field (this one occurrence only)'),
 ])
 
 T['C12'] = ("""C12 Only selected types are emitted, independent of the rest of the request.""", [
@@ -248,4 +264,9 @@ T['C20'] = ("""C20 On an empty target, absence is rendered as null and presence 
     ('C20_oneof_inactive', 'to_field_oneof_inactive', 'an inactive oneof branch is null'),
     ('C20_nil_embedded_renders_null', 'copy_to_nil_parent_renders_null', 'a nullable embedded message that is not set: every attribute of a field promoted from it is rendered null (scalars, lists, maps, nullable messages)'),
     ('C20_promoted_scalar', 'copy_to_promoted_scalar', 'and when it is set, a promoted scalar is null exactly when it is zero'),
+    ('C20_message_nullness_partial', 'copy_to_nullness_message_partial', 'message level, every depth: the result of CopyTo into the empty schema-typed object has, attribute by attribute, exactly the documented null-ness (scalar: zero / nil pointer; list, map: nil or empty; nullable message: nil; by-value message: never; oneof branch: inactive or zero payload; placeholder: always), recursively in nested objects, list elements and map values, and nothing is unknown (class tf_ok)'),
+    ('C20_absent_null', 'copy_to_absent_null', 'absence is rendered as null'),
+    ('C20_present_not_null', 'copy_to_present_not_null', 'presence as non-null'),
+    ('C20_every_depth', 'copy_to_nullness_every_depth', 'the same for every attribute of every nested object reached through non-null objects, list elements and map values'),
+    ('C20_null_iff_absent', 'val_nl_iff', 'null if and only if absent, non-null if and only if present'),
 ])
